@@ -69,6 +69,20 @@ func (p *c05) Init(tier string, seed int64) {
 	list := func() gen.Expr {
 		return &gen.EArr{[]gen.Expr{&gen.EStr{"e0"}, &gen.EStr{"e1"}, &gen.EStr{"e2"}, &gen.EStr{"e3"}}}
 	}
+	// hashes with several entries are evaluated in source order - key, value, key, value - whatever is done with them
+	// afterwards; a key in parentheses is an expression, also when it is a single name, number or string
+	fn := func(a string) gen.Expr { return &gen.ECall{"fn", []gen.Expr{&gen.EStr{a}}} }
+	grp := func(e gen.Expr) gen.Expr { return &gen.EGroup{e} }
+	for _, h := range []*gen.EHash{
+		{[]gen.Expr{grp(fn("k1")), grp(fn("k2")), grp(fn("k3"))}, []gen.Expr{fn("v1"), fn("v2"), fn("v3")}},
+		{[]gen.Expr{&gen.EStr{"a"}, grp(fn("k2"))}, []gen.Expr{fn("v1"), &gen.ENum{"2"}}},
+		{[]gen.Expr{grp(&gen.EName{"s1"}), grp(&gen.EName{"n1"}), &gen.EName{"s1"}}, []gen.Expr{&gen.EStr{"by-value-of-s1"}, &gen.EStr{"by-value-of-n1"}, &gen.EStr{"by-name"}}},
+		{[]gen.Expr{grp(grp(&gen.EName{"s1"})), grp(&gen.ENum{"7"}), grp(&gen.EStr{"q"}), grp(&gen.EBool{true}), grp(&gen.ENull{})}, []gen.Expr{&gen.ENum{"1"}, &gen.ENum{"2"}, &gen.ENum{"3"}, &gen.ENum{"4"}, &gen.ENum{"5"}}},
+	} {
+		for _, k := range []gen.Expr{&gen.EName{"s1"}, &gen.EStr{"s1"}, &gen.EName{"n1"}, &gen.EStr{"n1"}, &gen.EStr{"a"}, &gen.ENum{"7"}, &gen.EStr{"q"}, &gen.EStr{"1"}, &gen.EStr{""}, fn("k2")} {
+			p.table = append(p.table, &gen.EAttr{X: grp(h), Key: k})
+		}
+	}
 	for _, k := range ops {
 		p.table = append(p.table, &gen.EAttr{X: hash(), Key: k}, &gen.EAttr{X: list(), Key: k},
 			&gen.EAttr{X: hash(), Key: &gen.EGroup{&gen.EBin{">", k, &gen.ENum{"1"}}}}, &gen.EAttr{X: hash(), Key: &gen.EGroup{&gen.EUn{"not", k}}}, &gen.EAttr{X: hash(), Key: &gen.EGroup{&gen.EBin{"+", k, &gen.ENum{"1"}}}})
